@@ -18,7 +18,8 @@ import (
 
 // C30: the real DataSemaphore driven by a timed script.
 //
-// Time is counted in quarter units q = c30Q (10 ms); one unit = 4q = 40 ms.  Scripted calls
+// Time is counted in quarter units q (10 ms; 25 ms in the last attempt of a case whose earlier
+// runs were disturbed); one unit = 4q.  Scripted calls
 // happen at multiples of 4q (one call per instant), Acquire timeouts are 4k+2 q, so every
 // deadline lies in the middle of a unit, 2q = 20 ms away from any scripted call.
 //
@@ -33,7 +34,42 @@ import (
 //         is repeated (up to 3 attempts).  If the harness is still late the token LATE is put in
 //         front and the driver records the case as indeterminate (never agreement, never
 //         disagreement); odd return times are reported as observed.
-const c30Q = 10 * time.Millisecond
+const c30QDefault = 10 * time.Millisecond
+
+// c30Noise measures how late the Go scheduler / the machine wakes a sleeping goroutine while a
+// timed script runs.  A run during which a 2 ms sleep overslept by more than the limit is not
+// trusted (CPU contention from other processes): it is repeated, and finally flagged LATE.
+type c30Noise struct {
+	stop chan struct{}
+	done chan struct{}
+	max  time.Duration
+}
+
+func c30StartNoise() *c30Noise {
+	n := &c30Noise{stop: make(chan struct{}), done: make(chan struct{})}
+	go func() {
+		defer close(n.done)
+		for {
+			select {
+			case <-n.stop:
+				return
+			default:
+			}
+			t0 := time.Now()
+			time.Sleep(2 * time.Millisecond)
+			if d := time.Since(t0) - 2*time.Millisecond; d > n.max {
+				n.max = d
+			}
+		}
+	}()
+	return n
+}
+
+func (n *c30Noise) Stop() time.Duration {
+	close(n.stop)
+	<-n.done
+	return n.max
+}
 
 type c30Op struct {
 	kind    byte
@@ -71,7 +107,7 @@ func c30Parse(in []string) (dag.Metric, []c30Op) {
 	return capM, ops
 }
 
-func c30RunOnce(capM dag.Metric, ops []c30Op) (obs []string, late bool, odd bool) {
+func c30RunOnce(capM dag.Metric, ops []c30Op, c30Q time.Duration) (obs []string, late bool, odd bool) {
 	var mu sync.Mutex
 	finished := false
 	var warns []string
@@ -110,6 +146,7 @@ func c30RunOnce(capM dag.Metric, ops []c30Op) (obs []string, late bool, odd bool
 			}
 		}
 	}
+	noise := c30StartNoise()
 	start := time.Now().Add(2 * c30Q)
 	since := func() int64 { return int64(time.Since(start)) }
 	for i := range ops {
@@ -165,6 +202,9 @@ func c30RunOnce(capM dag.Metric, ops []c30Op) (obs []string, late bool, odd bool
 	case <-allDone:
 	case <-time.After(time.Until(end)):
 	}
+	if noise.Stop() > c30Q*8/10 {
+		late = true
+	}
 	mu.Lock()
 	finished = true
 	for i, o := range ops {
@@ -202,7 +242,11 @@ func c30Run(in []string) []string {
 	var late bool
 	for attempt := 0; attempt < 3; attempt++ {
 		var odd bool
-		obs, late, odd = c30RunOnce(capM, ops)
+		q := c30QDefault
+		if attempt == 2 { // last attempt: slower clock, proportionally larger tolerances
+			q = c30QDefault * 5 / 2
+		}
+		obs, late, odd = c30RunOnce(capM, ops, q)
 		if !late && !odd {
 			vu.Stat("attempts_" + strconv.Itoa(attempt+1))
 			return obs
